@@ -84,6 +84,17 @@ pub fn run_c08(prop: &str, seed: u64, index: usize, tier: Tier) -> RunReport {
         let n_ops = 1 + rng.usize_below(4).min(rng.usize_below(4));
         let ops: Vec<DamageOp> = if ci % 5 == 4 {
             crate::damage::correlated_damage(&parsed, &mut rng)
+        } else if ci % 5 == 3 && !parsed.frames.is_empty() {
+            // a frame header turned to garbage / given an invalid type and another length: where does the reader go next?
+            let fi = rng.usize_below(parsed.frames.len());
+            let fr = parsed.frames[fi].clone();
+            let mut v = Vec::new();
+            if rng.chance(1, 2) {
+                v.extend(frame_header_damage(&parsed, fi, 2, &mut rng));
+            } else {
+                v.push(DamageOp::Bytes { file: fr.file, off: fr.off + 4, data: vec![rng.next_u64() as u8, (rng.next_u64() % 128) as u8, *rng.pick(&[0u8, 5, 9, 77, 0xFF])] });
+            }
+            v
         } else {
             (0..n_ops).map(|_| aimed_overwrite(&parsed, &image, &mut rng)).collect()
         };
@@ -112,7 +123,11 @@ pub fn run_c08(prop: &str, seed: u64, index: usize, tier: Tier) -> RunReport {
         }
         for f in ev.failures.iter().filter(|f| f.prop == prop) {
             if rep.found.len() < 8 {
-                rep.found.push(Found { prop: prop.to_string(), clause: f.clause.clone(), detail: f.detail.clone(), case: case.clone(), fault: Fault::Damage { ops: ops.clone() } });
+                let mut clause = f.clause.clone();
+                if clause.starts_with("embedded-frame") && !clause.contains("-via-") {
+                    clause = clause.replacen("embedded-frame", &format!("embedded-frame-{}", crate::damage::embedded_frame_route(&damaged)), 1);
+                }
+                rep.found.push(Found { prop: prop.to_string(), clause, detail: f.detail.clone(), case: case.clone(), fault: Fault::Damage { ops: ops.clone() } });
             }
         }
         if index < 3 && ci == 0 {
